@@ -136,7 +136,6 @@ SHARED_OK = {
     ('protocol/ip/port.py', 'Port._ensure_loaded'): 'lazy load of a static name table',
     ('protocol/ip/__init__.py', 'IP.register'): 'registration at import time',
     ('bgp/message/open/capability/capability.py', 'Capability.unknown'): 'registration of the fallback class at import time',
-    ('bgp/message/open/capability/capability.py', 'Capability.klass'): 'rewrites kls.ID with the code just looked up (RouteRefresh and MultiSession are registered under two codes): shared class state written while decoding; its observable effect is checked by the bounded check open-sequences',
 }
 MUTATORS = {'append', 'add', 'update', 'setdefault', 'pop', 'clear', 'extend', 'insert', 'remove', 'cache', 'popitem', 'discard'}
 
@@ -244,12 +243,22 @@ def open_sequences(tier, seed):
         neg, _, _ = H.negotiated(nb, H.peer_open_bytes(65001, 180, '9.9.9.9', H.std_caps(65001)))
         return bytes(o.pack_message(neg))
 
+    kept = []  # (name, decoded OPEN, what its capabilities said when it was decoded)
+
+    def said(recv):
+        return {int(k): (str(v), v.json()) for k, v in recv.capabilities.items()}
+
     def event(name):
         neg, _sent, recv = H.negotiated(nb, H.peer_open_bytes(65001, 180, '9.9.9.9', variants[name]))
         import json as _j
 
+        kept.append((name, recv, said(recv)))
         ev = _j.loads(JSON('6.0.0').open(nb, 'receive', recv, b'', b'', neg))
         return _j.dumps(ev['neighbor']['open'], sort_keys=True)
+
+    # what each code must say, from the capability registry of RFC 2918 / the Cisco pre-standard codes -- not from a
+    # first decode, which is itself a decode in SOME state
+    WANT = {2: 'RFC', 128: 'Cisco', 68: 'RFC', 131: 'Cisco'}
 
     reference_ours = ours()
     reference = {}
@@ -264,7 +273,16 @@ def open_sequences(tier, seed):
                 fails.append({'what': f'the OPEN event of a peer announcing {name} capabilities depends on the OPENs decoded before it', 'input': {'sequence': list(seq), 'at': name}, 'expected': reference[name][:300], 'observed': got[:300]})
             if ours() != reference_ours and len(fails) < 5:
                 fails.append({'what': 'our own OPEN changed after decoding peer OPENs', 'input': {'sequence': list(seq), 'at': name}})
-    return {'evaluations': evals, 'distinct_nontrivial': evals, 'bound': 'every ordered triple of four peer OPEN variants (standard codes 2/68, Cisco codes 128/131, both, none); JSON event of each and our own next OPEN compared with the first decode', 'rule': 'one case = one OPEN in one sequence', 'samples': [{'sequence': ['cisco', 'standard', 'none']}], 'failures': fails}
+            nm, recv, _then = kept[-1]
+            for code, (text, js) in said(recv).items():
+                if code in WANT and f'"variant": "{WANT[code]}"' not in js and len(fails) < 5:
+                    fails.append({'what': f'capability code {code} of a decoded OPEN renders as {js} (the {WANT[code]} variant was received)', 'input': {'sequence': list(seq), 'at': name}})
+            # objects already decoded are not altered by later decoding
+            for nm, recv, then in kept[-4:]:
+                now = said(recv)
+                if now != then and len(fails) < 5:
+                    fails.append({'what': f'an OPEN decoded earlier ({nm}) says something else after a later OPEN was decoded', 'input': {'sequence': list(seq), 'at': name}, 'then': str(then)[:300], 'now': str(now)[:300]})
+    return {'evaluations': evals, 'distinct_nontrivial': evals, 'bound': 'every ordered triple of four peer OPEN variants (standard codes 2/68, Cisco codes 128/131, both, none); JSON event of each and our own next OPEN compared with the first decode; the variant each capability code renders against the code registry; the rendering of the OPENs decoded earlier re-read after each later decode', 'rule': 'one case = one OPEN in one sequence', 'samples': [{'sequence': ['cisco', 'standard', 'none']}], 'failures': fails}
 
 
 @replayer('C19', 'open-sequences')
